@@ -56,10 +56,13 @@ fn strategy() -> BoxedStrategy<Case> {
 }
 
 trait Fl: num_traits::Float + num_traits::FromPrimitive + std::fmt::Debug + Send + 'static {
+    /// the other supported element type
+    type Other: Fl;
     fn bits(self) -> u64;
     fn f(self) -> f64;
 }
 impl Fl for f32 {
+    type Other = f64;
     fn bits(self) -> u64 {
         self.to_bits() as u64
     }
@@ -68,6 +71,7 @@ impl Fl for f32 {
     }
 }
 impl Fl for f64 {
+    type Other = f32;
     fn bits(self) -> u64 {
         self.to_bits()
     }
@@ -91,6 +95,21 @@ fn same<T: Fl>(a: &[Vec<T>], b: &[Vec<T>]) -> bool {
     a.len() == b.len() && a.iter().zip(b).all(|(x, y)| x.len() == y.len() && x.iter().zip(y).all(|(p, q)| p.bits() == q.bits()))
 }
 
+/// first position (i, j) at which three consecutive entries of the flattened `a` reappear in the
+/// flattened `b` (three, because single f32 values do collide by chance in large requests)
+fn shared_run<T: Fl>(a: &[Vec<T>], b: &[Vec<T>]) -> Option<(usize, usize)> {
+    let fa: Vec<u64> = a.iter().flatten().map(|v| v.bits()).collect();
+    let fb: Vec<u64> = b.iter().flatten().map(|v| v.bits()).collect();
+    if fa.len() < 3 || fb.len() < 3 {
+        return None;
+    }
+    let mut seen = std::collections::HashMap::new();
+    for i in 0..fa.len() - 2 {
+        seen.entry((fa[i], fa[i + 1], fa[i + 2])).or_insert(i);
+    }
+    (0..fb.len() - 2).find_map(|j| seen.get(&(fb[j], fb[j + 1], fb[j + 2])).map(|i| (*i, j)))
+}
+
 fn check_t<T: Fl>(c: &Case, cov: &mut Cov) -> CheckResult {
     let (n, d) = (c.n, c.d);
     let a: Vec<Vec<T>> = no_panic(|| init_with_seed::<T>(n, d, c.seed))
@@ -98,6 +117,17 @@ fn check_t<T: Fl>(c: &Case, cov: &mut Cov) -> CheckResult {
     shape_ok(&a, n, d, "init_with_seed")?;
     let b: Vec<Vec<T>> = init_with_seed::<T>(n, d, c.seed);
     ensure!(same(&a, &b), "init-pure", "init_with_seed({n},{d},{}) returned different values on a second call", c.seed);
+    // ... whatever was asked for in between, in particular the same request for the other
+    // element type
+    let other_t: Vec<Vec<T::Other>> = init_with_seed::<T::Other>(n, d, c.seed);
+    shape_ok(&other_t, n, d, "init_with_seed")?;
+    let b2: Vec<Vec<T>> = init_with_seed::<T>(n, d, c.seed);
+    ensure!(
+        same(&a, &b2),
+        "init-pure history",
+        "init_with_seed({n},{d},{}) returned different values after the same request was made for the other element type",
+        c.seed
+    );
     // init_det == init_with_seed(.., 42), and is pure
     let det: Vec<Vec<T>> = no_panic(|| init_det::<T>(n, d)).map_err(|m| Fail::new("init-panic", format!("init_det panicked: {m}")))?;
     shape_ok(&det, n, d, "init_det")?;
@@ -137,6 +167,7 @@ fn check_t<T: Fl>(c: &Case, cov: &mut Cov) -> CheckResult {
         for i in 0..outs.len() {
             for j in i + 1..outs.len() {
                 ensure!(!same(&outs[i], &outs[j]), "init-os-constant", "OS-seeded init({n},{d}) returned identical values on two different threads");
+                ensure!(shared_run(&outs[i], &outs[j]).is_none(), "init-os-overlap", "OS-seeded init({n},{d}) on two different threads returned overlapping stretches of one stream");
             }
         }
         // sequentially created threads, too (a per-thread generator cloned from one source)
@@ -150,6 +181,16 @@ fn check_t<T: Fl>(c: &Case, cov: &mut Cov) -> CheckResult {
     if n * d >= 4 {
         let os2: Vec<Vec<T>> = init::<T>(n, d);
         ensure!(!same(&os, &os2), "init-os-constant", "two OS-seeded init({n},{d}) calls returned identical values");
+        let os3: Vec<Vec<T>> = init::<T>(n, d);
+        for (x, y, what) in [(&os, &os2, "the next call"), (&os2, &os3, "the next call"), (&os, &os3, "the call after the next")] {
+            if let Some((i, j)) = shared_run(x, y) {
+                return Err(Fail::new(
+                    "init-os-overlap",
+                    format!("OS-seeded init({n},{d}): entries {i}..{} of one call reappear as entries {j}..{} of {what} on the same thread: the calls are not independent draws", i + 3, j + 3),
+                ));
+            }
+        }
+        cov.class("successive-os-calls-compared");
     }
     if n == 0 || d == 0 {
         cov.class("zero-extent");
